@@ -40,8 +40,8 @@ import (
 	"github.com/consensys/gnark/verifharness/internal/adversary"
 	"github.com/consensys/gnark/verifharness/internal/circuits"
 	"github.com/consensys/gnark/verifharness/internal/hooks"
-	"github.com/consensys/gnark/verifharness/internal/scen"
 	_ "github.com/consensys/gnark/verifharness/internal/hooks/all"
+	"github.com/consensys/gnark/verifharness/internal/scen"
 	"github.com/consensys/gnark/verifharness/internal/vcore"
 )
 
@@ -362,14 +362,19 @@ func TestC10Child(t *testing.T) {
 	if e.gpk, e.gvk, err = groth16.Setup(e.r1); err != nil {
 		t.Fatal(err)
 	}
-	srs, srsL, err := unsafekzg.NewSRS(e.sp)
-	if err != nil {
-		t.Fatal(err)
-	}
-	if e.ppk, e.pvk, err = plonk.Setup(e.sp, srs, srsL); err != nil {
-		t.Fatal(err)
+	if !sc.Heavy { // heavy scenarios: no PLONK prover calls (a 2^16-domain prover under the race detector costs a minute per call)
+		srs, srsL, err := unsafekzg.NewSRS(e.sp)
+		if err != nil {
+			t.Fatal(err)
+		}
+		if e.ppk, e.pvk, err = plonk.Setup(e.sp, srs, srsL); err != nil {
+			t.Fatal(err)
+		}
 	}
 	nW := r.Pick(6, 12)
+	if sc.Heavy {
+		nW = r.Pick(3, 6)
+	}
 	e.wits = sc.Witnesses(rng, field, nW)
 	for _, w := range e.wits {
 		fw, err := frontend.NewWitness(w.Assign, field)
@@ -390,7 +395,11 @@ func TestC10Child(t *testing.T) {
 	taskCounts := []int{1, 2, 3, 7, 16, 64, 512}
 	for wi := range e.wits {
 		calls = append(calls, call{"solve-r1cs", wi, taskCounts[wi%len(taskCounts)]}, call{"solve-scs", wi, taskCounts[(wi+3)%len(taskCounts)]})
-		calls = append(calls, call{"groth16", wi, 0}, call{"plonk", wi, 0})
+		if !sc.Heavy {
+			calls = append(calls, call{"groth16", wi, 0}, call{"plonk", wi, 0})
+		} else if wi == 0 {
+			calls = append(calls, call{"groth16", wi, 0})
+		}
 	}
 
 	// ---- phase 1: every call alone (twice: repeated solves leave no state behind)
@@ -427,6 +436,11 @@ func TestC10Child(t *testing.T) {
 				e.ievents = append(e.ievents, fmt.Sprintf("%d:%s", v.(int), point))
 				e.ilog.Unlock()
 			}
+		}
+		if sc.Heavy && point != "solve.pre-reset" && point != "solve.post-reset" && (x>>8)%64 != 0 {
+			// deep systems (a GKR verifier has ~10^4 solver levels): delays at one level boundary
+			// in 64, or a solve takes seconds
+			return
 		}
 		switch x % 8 {
 		case 0, 1:
@@ -537,6 +551,9 @@ func TestC10Child(t *testing.T) {
 		}
 		const G = 8
 		K := r.Pick(40, 200)
+		if sc.Heavy {
+			K = r.Pick(10, 40)
+		}
 		var wg sync.WaitGroup
 		var mism atomic.Int64
 		type bad struct {
